@@ -91,8 +91,8 @@ var hostileStringsExtra = []string{"", "a", "ab", "\x00", "ſ", "K", strings.Rep
 
 type c20Gen struct {
 	r       *rand.Rand
-	holder  string            // an account holding all roles in the current state ("" in the default-genesis state)
-	signers []*ref.Key        // keys able to attest in the current state (nil: none)
+	holder  string     // an account holding all roles in the current state ("" in the default-genesis state)
+	signers []*ref.Key // keys able to attest in the current state (nil: none)
 	thresh  uint32
 	pending string
 	emitted [][]byte
@@ -729,7 +729,7 @@ func lenBucket(n int) string {
 func init() {
 	Register(&Check{
 		ID: "C20", Level: "exploration",
-		Rule: "crash tap only: (1) wire-level generated messages of all 25 types (fields absent, duplicated, wrong wire type, unknown; hostile amounts, strings, byte lengths, CCTP messages and attestations) delivered through the real baseapp in 6 chain states (default genesis, populated, both flags set, extreme genesis, after a history, dependencies failing) — a recovered panic (sdk/111222) is a violation; (2) all 19 queries with hostile requests and pagination through BaseApp.Query; (3) both decoders on random lengths under recover(); (4) the real cobra command tree for the nine address-argument call sites, after a calibration that each runs cleanly on valid arguments. distinct = (state, message type + field-shape set, outcome) / (query, request bytes) / (CLI site, argument).",
+		Rule:   "crash tap only: (1) wire-level generated messages of all 25 types (fields absent, duplicated, wrong wire type, unknown; hostile amounts, strings, byte lengths, CCTP messages and attestations) delivered through the real baseapp in 6 chain states (default genesis, populated, both flags set, extreme genesis, after a history, dependencies failing) — a recovered panic (sdk/111222) is a violation; (2) all 19 queries with hostile requests and pagination through BaseApp.Query; (3) both decoders on random lengths under recover(); (4) the real cobra command tree for the nine address-argument call sites, after a calibration that each runs cleanly on valid arguments. distinct = (state, message type + field-shape set, outcome) / (query, request bytes) / (CLI site, argument).",
 		Shards: func(t string) int { return map[string]int{"quick": 6, "thorough": 16}[t] },
 		Prefix: func(string, int) string { return "noble" },
 		Run: func(rc *RunCtx) {
